@@ -31,6 +31,11 @@ What is decided (all structurally, nothing under /repo is imported or run):
                  list (not only the matches the tree walk reported as removed); `WBS.__remove` removes from the current
                  node's children and recurses into every child.
 
+Floors (sites read on today's tree): suffix_table 12 (11 suffixes + plain keyword), resolver 20 (18 public attributes + a custom
+attribute + parent_id), all_filters 1 (the single return of __call__), result 3, readonly 19 (7 query functions + 12 getters),
+bulk_assign 1, remove_all 9 (per variant: query, removal, "all returns" counted once so that merging returns is not an
+analysis error; WBS.tasks; two sites in WBS.__remove).  A function end reachable without `return` counts as `return None`.
+
 Not decided: what user supplied predicates do (assumed pure); attribute names that themselves end in a filter suffix
 (`is_not` + `_in_`); that `_ChildrenList.remove` detaches the whole subtree (C11 territory); regular-expression semantics;
 table-driven re-implementations of `search` (suffix -> operator dict) end as UNDECIDED, not as a pass.
@@ -68,8 +73,9 @@ SPEC: Dict[str, Tuple[str, object]] = {
     '_not_like_': ('like', False),
     '': ('eq', '=='),
 }
-_OPS = {ast.Eq: '==', ast.NotEq: '!=', ast.Lt: '<', ast.LtE: '<=', ast.Gt: '>', ast.GtE: '>=', ast.In: 'in', ast.NotIn: 'not in'}
-_MIRROR = {'==': '==', '!=': '!=', '<': '>', '<=': '>=', '>': '<', '>=': '<='}
+_OPS = {ast.Eq: '==', ast.NotEq: '!=', ast.Lt: '<', ast.LtE: '<=', ast.Gt: '>', ast.GtE: '>=', ast.In: 'in', ast.NotIn: 'not in',
+        ast.Is: 'is', ast.IsNot: 'is not'}
+_MIRROR = {'==': '==', '!=': '!=', '<': '>', '<=': '>=', '>': '<', '>=': '<=', 'is': 'is', 'is not': 'is not'}
 _COMPL = {'==': '!=', '!=': '==', '<': '>=', '<=': '>', '>': '<=', '>=': '<', 'in': 'not in', 'not in': 'in'}
 _ORDERING = {'<', '<=', '>', '>='}
 
@@ -379,6 +385,23 @@ def _enclosing_comp(func, node, var: str):
     return best
 
 
+def _enclosing_for(func, node, var: str) -> Optional[ast.For]:
+    """innermost `for var in ..` statement of func whose body contains node (by containment: a `break` in the body does not
+    hide the loop, unlike cfg.enclosing_fors which asks for a way back to the header)"""
+    best = None
+    for n in walk_no_nested(func.node):
+        if isinstance(n, ast.For) and isinstance(n.target, ast.Name) and n.target.id == var and \
+                any(x is node for st in n.body for x in ast.walk(st)):
+            best = n
+    return best
+
+
+def _implicit_returns(func) -> list:
+    """cfg nodes from which the function end is reached without a `return` statement (the call then yields None)"""
+    cfg = cfg_of(func)
+    return [p for p in cfg.exit.pred if cfg.is_reachable(p) and not isinstance(p.ast, ast.Return)]
+
+
 def _loop_exits(for_node: ast.For) -> List[ast.stmt]:
     out = []
     for st in for_node.body:
@@ -443,6 +466,9 @@ def _suffix_table(ctx):
             return
         # ---- loop header:  for k, v in kw.items()   |   for k in kw  (+ v = kw[k])
         it = subst(loop.iter, env0)
+        while isinstance(it, ast.Call) and isinstance(it.func, ast.Name) and it.func.id in ('list', 'tuple', 'sorted', 'iter') \
+                and len(it.args) == 1 and not it.keywords:
+            it = it.args[0]          # the order in which the filters are evaluated does not matter
         if match(f"{kw_p}.items()", it) and isinstance(loop.target, ast.Tuple) and len(loop.target.elts) == 2 \
                 and all(isinstance(x, ast.Name) for x in loop.target.elts):
             key_v, val_v = loop.target.elts[0].id, loop.target.elts[1].id
@@ -616,7 +642,7 @@ def _one_suffix(o, f, V: _SearchVocab, paths: List[_Path], suffix: str):
                 lits.append(('P', truth_if_var_true, e, org, True))
         norm_paths.append((lits, outcome, p))
     # ---- truth table
-    for n_val in (True, False):
+    for n_val in (False, True):
         for p_val in (True, False):
             hits = []
             for lits, outcome, p in norm_paths:
@@ -640,6 +666,10 @@ def _one_suffix(o, f, V: _SearchVocab, paths: List[_Path], suffix: str):
                 node = site[3] if site else (p.node or f.node)
                 cons = site[2] if site else label
                 state = f"the attribute value is {'None' if n_val else 'present'} and `{_op_text(suffix, True)}` is {p_val}"
+                if fam == 'isnone':
+                    state = f"the attribute value is {'None' if n_val else 'not None'}"
+                elif not n_val:
+                    state = f"`{_op_text(suffix, True)}` is {p_val}"
                 if fam in ('cmp', 'like') and n_val:
                     state = "the attribute value is None (missing attribute)"
                 o.refute(f, node, cons, f"{wrong_branch}{label}: when {state} the filter {'passes' if outcome == 'pass' else 'rejects'} the "
@@ -762,7 +792,8 @@ def _resolver(ctx):
                     return 'read' if c.value == attr else 'other:' + str(c.value)
             return None
 
-        attrs = sorted(public) + [CUSTOM, 'parent_id']
+        first = [x for x in ('estimate', 'spent', 'parent', 'id') if x in public]
+        attrs = first + sorted(public - set(first)) + [CUSTOM, 'parent_id']
         for attr in attrs:
             bad = False
             for has_parent in ((True, False) if attr == 'parent_id' else (True,)):
@@ -849,6 +880,9 @@ def _call_returns(ctx):
         if not rets:
             o.refute(f, f.node, '__call__', "__call__ never returns a result")
             return
+        for n in _implicit_returns(f):
+            o.refute(f, n.ast if n.ast is not None else f.node, 'implicit return None',
+                     "__call__ can end without `return`: the call then yields None instead of the list of matching tasks")
 
         def implies(conds, forms):
             for t, pol in conds:
@@ -873,6 +907,10 @@ def _call_returns(ctx):
                     and len(comp.args) == 1:
                 comp = comp.args[0]
             parts = facts.comp_parts(comp) if comp is not None else None
+            if comp is not None and not parts and _whole(m['c'], lambda e: bool(match(SELF, e) or match(f"{SELF}._list", e)), True) == 'whole':
+                # a copy of the whole list: same as a comprehension without filters
+                nm = ast.Name(id='_t', ctx=ast.Load())
+                parts = (nm, nm, m['c'], [])
             if not parts or not isinstance(parts[1], ast.Name):
                 o.undecided(f, r, r.value, "the result is not `_ImmutableTaskList(<single comprehension>)`")
                 continue
@@ -1002,6 +1040,12 @@ def _kw_filter(ctx, f, search, at, pol, KW, Tn):
     if isinstance(at, ast.BoolOp) and isinstance(at.op, ast.Or):
         return ('bad', f"the keyword filters are or-ed with another condition (`{src(at)}`): a task that fails them can still be "
                        f"returned; every filter must hold")
+    if isinstance(at, ast.IfExp):
+        in_body = any(x is c for x in ast.walk(at.body))
+        in_else = any(x is c for x in ast.walk(at.orelse))
+        if in_body != in_else and not any(x is c for x in ast.walk(at.test)):
+            return ('bad', f"the keyword filters are applied only on one side of `{src(at)}`: on the other side they are ignored; "
+                           f"every filter must hold")
     return None
 
 
@@ -1090,12 +1134,10 @@ def _bulk_assign(ctx):
             if not (isinstance(v2, ast.Name) and v2.id == VALUE):
                 o.refute(f, c, c, f"the value set on the tasks is `{src(v2)}`, not the assigned value `{VALUE}`")
                 continue
-            fors = [fo for fo in cfg.enclosing_fors(cn) if isinstance(fo.target, ast.Name) and isinstance(recv, ast.Name)
-                    and fo.target.id == recv.id]
-            if not fors:
+            fo = _enclosing_for(f, c, recv.id) if isinstance(recv, ast.Name) else None
+            if fo is None:
                 o.refute(f, c, c, f"`{src(c)}` is not executed for each element of the list (no enclosing loop binds `{src(recv)}`)")
                 continue
-            fo = fors[-1]
             it = ex.expand(fo.iter, cfg.node_of(fo))
             w = _whole(it, lambda e: bool(match(f"{SELF}._list", e) or match(SELF, e)))
             if w is None:
@@ -1238,11 +1280,10 @@ def _remove_all(ctx):
                 loop_node = comp
                 exits = []
             elif cn is not None:
-                fors = [fo for fo in cfg.enclosing_fors(cn) if isinstance(fo.target, ast.Name) and fo.target.id == var]
-                if not fors:
+                fo = _enclosing_for(f, c, var)
+                if fo is None:
                     o.refute(f, c, c, f"`{src(c)}` is not executed for each match (no loop over the matches binds `{var}`)")
                     continue
-                fo = fors[-1]
                 binder_iter = ex.expand(fo.iter, cfg.node_of(fo))
                 conds = []
                 loop_node = fo
@@ -1279,6 +1320,9 @@ def _remove_all(ctx):
         rets = [n for n in walk_no_nested(f.node) if isinstance(n, ast.Return)]
         if not rets:
             o.refute(f, f.node, 'return', "remove_all returns nothing; it must return the removed (= matching) tasks")
+        for n in (_implicit_returns(f) if rets else []):
+            o.refute(f, n.ast if getattr(n.ast, 'lineno', None) else f.node, 'implicit return None',
+                     "remove_all can end without `return` (after the removals): it must return the removed (= matching) tasks")
         good_returns = []
         for r in rets:
             if r.value is None:
@@ -1343,7 +1387,7 @@ def _remove_all(ctx):
             if len(c.args) != 2 or not match(TASK, c.args[0]) or not isinstance(c.args[1], ast.Name) or cn is None:
                 o.undecided(f, c, c, "recursive call in an unexpected shape")
                 continue
-            fors = [fo for fo in cfg.enclosing_fors(cn) if isinstance(fo.target, ast.Name) and fo.target.id == c.args[1].id]
+            fors = [fo for fo in [_enclosing_for(f, c, c.args[1].id)] if fo is not None]
             if not fors:
                 o.undecided(f, c, c, "recursive call not inside a loop over the children")
                 continue
@@ -1353,8 +1397,10 @@ def _remove_all(ctx):
             elif w != 'whole':
                 o.refute(f, fors[-1], fors[-1].iter, f"the tree walk skips subtrees: {w[1]}")
             else:
-                bad = [(t, p) for t, p in facts.node_conditions(prog, f, c, ctx.typer, expand=False)
-                       if not (any(x is d for d in direct for x in ast.walk(t)) and not p) and
+                # allowed: "the task was not found among the current node's children" and the None pre-check
+                bad = [(t, p) for t, p in facts.node_conditions(prog, f, c, ctx.typer)
+                       if not (any(match(f"{CUR}.children.remove({TASK})", x) for x in ast.walk(t)) and
+                               not (names_in(t) - {CUR, TASK}) and not p) and
                        not (match(f"{TASK} is None", t) and not p)]
                 if bad:
                     o.undecided(f, c, c, "the descent is conditional: " + ', '.join(facts.cond_texts(bad)))
